@@ -208,6 +208,50 @@ async fn run_bytes(log: &Log, r: &mut Rng, i: u64) {
     quiesce().await;
 }
 
+/// The connection ends in an orderly way in the middle of a frame (traffic truncated inside a header or a
+/// payload). Runs on its own thread with a watchdog: a receive task that spins without ever yielding would
+/// otherwise take the harness with it - here it is recorded as "an operation never returned".
+fn run_eof_partial(log: &Log, seed: u64, i: u64) {
+    let (tx, rx) = std::sync::mpsc::channel::<(Value, Value)>();
+    std::thread::spawn(move || {
+        let mut r = Rng::new(seed);
+        let client = r.chance(1, 2);
+        let role = if client { "client" } else { "server" };
+        let rt = rig::paused_rt();
+        let local = tokio::task::LocalSet::new();
+        let out = local.block_on(&rt, async {
+            let Some(mut s) = setup(client, *r.pick(&SCHEMES)).await else { return None };
+            let Some(mut other) = setup(client, "stop=0").await else { return None };
+            let panics0 = PANICS.load(Ordering::SeqCst);
+            let n = r.range(0, 60) as usize;
+            let f = frame_bytes(*r.pick(&[2u8, 0, 8, 4, 5]), s.sid_open, &(0..n).map(|_| r.next() as u8).collect::<Vec<u8>>());
+            let cut = match r.below(3) { 0 => r.range(1, 6) as usize, 1 => 7.min(f.len() - 1), _ => r.range(1, f.len() as u64 - 1) as usize }.max(1).min(f.len() - 1);
+            s.rg.inp.push(&f[..cut]);
+            quiesce().await;
+            s.rg.inp.inject_eof();
+            quiesce().await;
+            tokio::time::sleep(Duration::from_secs(90)).await;
+            quiesce().await;
+            let mut o = probe(&mut s, &mut other).await;
+            o["panics"] = json!(PANICS.load(Ordering::SeqCst) - panics0);
+            Some((json!({"kind": "eof-inside-frame", "i": i, "role": role, "cut": cut, "frame": f.len()}), o))
+        });
+        if let Some((d, o)) = out { let _ = tx.send((d, json!({"role": role, "o": o}))); }
+    });
+    match rx.recv_timeout(Duration::from_secs(20)) {
+        Ok((d, ro)) => { log.block(d, vec![json!({"ev": "hsess", "role": ro["role"], "frames": [{"cmd": -1, "sid": "zero", "pay": "eof-inside-frame"}], "o": ro["o"]})]); }
+        Err(std::sync::mpsc::RecvTimeoutError::Timeout) => {
+            WATCHDOGS.fetch_add(1, Ordering::SeqCst);
+            // the scenario did not finish in 20 s of real time although its clock is virtual: some task is busy without yielding
+            let o = json!({"closed": false, "shutdown": false, "sib_in": false, "sib_out": false, "open_ok": false, "released": false, "later_err": false, "panics": 0, "hung": 1, "other_session": true});
+            log.block(json!({"kind": "eof-inside-frame", "i": i, "watchdog": true}), vec![json!({"ev": "hsess", "role": "server", "frames": [{"cmd": -1, "sid": "zero", "pay": "eof-inside-frame"}], "o": o})]);
+        }
+        Err(_) => {}
+    }
+}
+
+static WATCHDOGS: std::sync::atomic::AtomicU64 = std::sync::atomic::AtomicU64::new(0);
+
 async fn run_listeners(log: &Log, r: &mut Rng, n: u64) {
     let server = net::start_server(PaddingFactory::default()).await;
     let pool = SessionPoolConfig { check_interval: Duration::from_secs(30), idle_timeout: Duration::from_secs(60), min_idle_sessions: 1 };
@@ -219,7 +263,22 @@ async fn run_listeners(log: &Log, r: &mut Rng, n: u64) {
         let panics0 = PANICS.load(Ordering::SeqCst);
         let (front, kind) = if r.chance(1, 2) { (&socks, "socks5") } else { (&http, "http") };
         let valid: Vec<u8> = if kind == "socks5" { let mut m = vec![5u8, 1, 0, 5, 1, 0, 1, 127, 0, 0, 1]; m.extend_from_slice(&echo.addr.port().to_be_bytes()); m } else { format!("CONNECT {} HTTP/1.1\r\nHost: {}\r\n\r\n", echo.addr, echo.addr).into_bytes() };
-        let bytes: Vec<u8> = match r.below(5) {
+        let bytes: Vec<u8> = match if kind == "http" { r.below(10) } else { r.below(5) } {
+            // requests that look well-formed but carry multi-byte characters, raw high bytes, odd separators at
+            // every small offset of the request line and of a header line
+            5..=9 => {
+                let weird: Vec<u8> = match r.below(4) {
+                    0 => { let k = r.below(9) as usize; let mut l = "X-Abcdefgh".to_string(); l.insert(k, *r.pick(&['\u{e9}', '\u{4e2d}', '\u{1F600}'])); format!("{}: 1", l).into_bytes() }
+                    1 => { let k = r.below(5) as usize; let mut l = "Host".to_string(); l.insert(k.min(4), *r.pick(&['\u{e9}', '\u{4e2d}'])); format!("{}: {}", l, echo.addr).into_bytes() }
+                    2 => { let mut l = b"X-Raw".to_vec(); l.insert(r.below(5) as usize, *r.pick(&[0xffu8, 0x80, 0xc3, 0x00])); l.extend_from_slice(b": v"); l }
+                    _ => (*r.pick(&["NoColonHere", ": empty-name", "X-\t: tab", " leading: space", "X-Long: "])).as_bytes().to_vec(),
+                };
+                let first = match r.below(3) { 0 => format!("GET http://{}/p HTTP/1.1", echo.addr), 1 => format!("G\u{e9}T http://{}/ HTTP/1.1", echo.addr), _ => format!("GET /\u{4e2d}\u{e9} HTTP/1.1") };
+                let mut v = first.into_bytes(); v.extend_from_slice(b"\r\n");
+                if r.chance(1, 2) { v.extend_from_slice(&weird); v.extend_from_slice(b"\r\n"); v.extend_from_slice(format!("Host: {}\r\n", echo.addr).as_bytes()); }
+                else { v.extend_from_slice(format!("Host: {}\r\n", echo.addr).as_bytes()); v.extend_from_slice(&weird); v.extend_from_slice(b"\r\n"); }
+                v.extend_from_slice(b"\r\n"); v
+            }
             0 => (0..r.range(1, 3000)).map(|_| r.next() as u8).collect(),
             1 => { let mut v = valid.clone(); let k = r.below(v.len() as u64) as usize; v[k] ^= 1 << r.below(8); v }
             2 => valid[..r.range(1, valid.len() as u64 - 1) as usize].to_vec(),
@@ -307,10 +366,13 @@ pub fn run(args: &Args, log: &Log) -> Result<(), String> {
             for i in 0..(if thorough { 20000 } else { 600 }) { run_bytes(log, &mut r, i).await; }
         });
     }
+    // (after two watchdog hits the point is made: every further spinning thread would only burn a core)
+    let dogs0 = WATCHDOGS.load(Ordering::SeqCst);
+    for i in 0..(if thorough { 200 } else { 24 }) { if WATCHDOGS.load(Ordering::SeqCst) - dogs0 >= 2 { break; } run_eof_partial(log, args.seed.wrapping_mul(409).wrapping_add(i), i); }
     {
         let rt = net::rt();
         rt.block_on(async {
-            run_listeners(log, &mut r, if thorough { 1500 } else { 60 }).await;
+            run_listeners(log, &mut r, if thorough { 1500 } else { 160 }).await;
             run_udp_garbage(log, &mut r, if thorough { 300 } else { 20 }).await;
         });
         rt.shutdown_timeout(Duration::from_millis(200));
